@@ -282,6 +282,39 @@ def emitAll (ts : List (Scad ν)) : List Char := ts.flatMap (Scad.emit showNum)
 
 end Header
 
+/-! ## change of number type -/
+def ScadOp.map {ν μ : Type} (f : ν → μ) : ScadOp ν → ScadOp μ
+  | .union => .union | .difference => .difference | .intersection => .intersection | .hull => .hull
+  | .circle r fa fs fn => .circle (f r) (fa.map f) (fs.map f) fn
+  | .sphere r fa fs fn => .sphere (f r) (fa.map f) (fs.map f) fn
+  | .square s c => .square ⟨f s.x, f s.y⟩ c
+  | .cube s c => .cube ⟨f s.x, f s.y, f s.z⟩ c
+  | .polygon pts paths cv => .polygon (pts.map fun p => ⟨f p.x, f p.y⟩) paths cv
+  | .text t sz font h v sp d lang scr fn => .text t (f sz) font h v (f sp) d lang scr fn
+  | .import_ file cv => .import_ file cv
+  | .projection c => .projection c
+  | .cylinder h r1 r2 c fa fs fn => .cylinder (f h) (f r1) (f r2) c (fa.map f) (fs.map f) fn
+  | .polyhedron pts faces cv => .polyhedron (pts.map fun p => ⟨f p.x, f p.y, f p.z⟩) faces cv
+  | .linearExtrude h c cv tw sc sl fn => .linearExtrude (f h) c cv (f tw) ⟨f sc.x, f sc.y⟩ sl fn
+  | .rotateExtrude a cv fa fs fn => .rotateExtrude (f a) cv (fa.map f) (fs.map f) fn
+  | .surface file c i cv => .surface file c i cv
+  | .translate v => .translate ⟨f v.x, f v.y, f v.z⟩
+  | .rotate a sc v => .rotate (a.map f) sc ⟨f v.x, f v.y, f v.z⟩
+  | .scale v => .scale ⟨f v.x, f v.y, f v.z⟩
+  | .resize ns a iv av cv => .resize ⟨f ns.x, f ns.y, f ns.z⟩ a iv av cv
+  | .mirror v => .mirror ⟨f v.x, f v.y, f v.z⟩
+  | .color rgba col hex alpha => .color (rgba.map fun p => ⟨f p.x, f p.y, f p.z, f p.w⟩) col hex (alpha.map f)
+  | .offset r d ch => .offset (r.map f) (d.map f) ch
+  | .minkowski cv => .minkowski cv
+
+mutual
+def Scad.map {ν μ : Type} (f : ν → μ) : Scad ν → Scad μ
+  | .mk op cs => .mk (op.map f) (ScadList.map f cs)
+def ScadList.map {ν μ : Type} (f : ν → μ) : ScadList ν → ScadList μ
+  | .nil => .nil
+  | .cons h t => .cons (Scad.map f h) (ScadList.map f t)
+end
+
 /-! ## files (`Scad::save`, `scad_file!`) -/
 /-- the global settings a `scad_file!` form writes before the children -/
 inductive Settings (ν : Type) where
